@@ -275,6 +275,83 @@ def streams(rep, tier, seed, prop=None, only=None, n=None):
     info["wall_s"] = round(time.time() - t0, 1)
 
 
+# ---------------------------------------------------------------- shrinking a failing program (triage aid)
+
+def _fmt(head, blocks, edges, extra):
+    parts = [head] + ["B %d %s" % (i, " ; ".join(b)) for i, b in enumerate(blocks)]
+    parts.append("E " + " ".join("%d %d" % e for e in edges))
+    return " | ".join(parts + extra)
+
+
+def _split(line):
+    secs = [s.strip() for s in line.split(" | ")]
+    head = secs[0]
+    nb = int(head.split()[1])
+    blocks = [[] for _ in range(nb)]; edges = []; extra = []
+    for s in secs[1:]:
+        t = s.split()
+        if not t:
+            continue
+        if t[0] == "B":
+            blocks[int(t[1])] = [x.strip() for x in " ".join(t[2:]).split(" ; ") if x.strip()]
+        elif t[0] == "E":
+            v = list(map(int, t[1:])); edges = list(zip(v[0::2], v[1::2]))
+        else:
+            extra.append(s)
+    return head, blocks, edges, extra
+
+
+def shrink(line, still_fails, budget=400):
+    """greedy reduction: drop I / A sections, header options, edges, statements (assert statements keep their ids), then
+    unused trailing blocks; `still_fails(line)` decides"""
+    head, blocks, edges, extra = _split(line)
+    cur = _fmt(head, blocks, edges, extra)
+    calls = [0]
+
+    def attempt(h, b, e, x):
+        if calls[0] >= budget:
+            return False
+        calls[0] += 1
+        return still_fails(_fmt(h, b, e, x))
+    changed = True
+    while changed and calls[0] < budget:
+        changed = False
+        for i in range(len(extra) - 1, -1, -1):
+            x2 = extra[:i] + extra[i + 1:]
+            if attempt(head, blocks, edges, x2):
+                extra = x2; changed = True
+        ht = head.split()
+        for i in range(len(ht) - 1, 3, -1):
+            if ht[i].startswith(("check=", "nasserts=")):
+                continue
+            h2 = " ".join(ht[:i] + ht[i + 1:])
+            if attempt(h2, blocks, edges, extra):
+                head = h2; ht = head.split(); changed = True
+        for i in range(len(edges) - 1, -1, -1):
+            e2 = edges[:i] + edges[i + 1:]
+            if attempt(head, blocks, e2, extra):
+                edges = e2; changed = True
+        for bi in range(len(blocks)):
+            for si in range(len(blocks[bi]) - 1, -1, -1):
+                b2 = [list(b) for b in blocks]
+                del b2[bi][si]
+                if attempt(head, b2, edges, extra):
+                    blocks = b2; changed = True
+        # drop the last block when nothing refers to it
+        while len(blocks) > 1:
+            last = len(blocks) - 1
+            ht = head.split()
+            if blocks[last] or any(last in e for e in edges) or int(ht[3]) == last or any(x.split()[:2] == ["A", str(last)] for x in extra) \
+                    or ("entry=%d" % last) in ht:
+                break
+            h2 = " ".join([ht[0], str(last)] + ht[2:])
+            if attempt(h2, blocks[:-1], edges, extra):
+                head = h2; blocks = blocks[:-1]; changed = True
+            else:
+                break
+    return _fmt(head, blocks, edges, extra)
+
+
 class _Rep:
     """stand-alone report for the command line"""
     def __init__(self, prop):
@@ -298,6 +375,7 @@ if __name__ == "__main__":
     ap.add_argument("--seed", type=int, default=20260925)
     ap.add_argument("--tier", default="quick")
     ap.add_argument("--replay", help="a program line (text) or a replay file holding 'input: <line>': run it on --dom")
+    ap.add_argument("--shrink", action="store_true", help="with --replay: reduce the program first (same class of oracle message)")
     a = ap.parse_args()
     if os.environ.get("FWDDOMS_PRIVATE_BUILD", "1") == "1":
         # exploration from the command line: a private build cache (concurrent checks prune build/impl-*)
@@ -314,8 +392,20 @@ if __name__ == "__main__":
             exe, err = vlib.build_harness(dom["tu"])
             if err:
                 print(err); sys.exit(2)
-            ans = run_cases(exe, dn, [line], os.path.join(vlib.VERIF, "out", a.prop, "fwd-%s-replay.cases" % dn))[0]
+            sc = os.path.join(vlib.VERIF, "out", a.prop, "fwd-%s-replay.cases" % dn)
+            ans = run_cases(exe, dn, [line], sc, per_run=20)[0]
             w = judge(a.prop, line, ans)
+            if a.shrink and w:
+                cls = lambda w, x: ("abort:" + re.sub(r"\d+", "", x[:60])) if is_abort(x) else re.sub(r"b?\d+|\[.*?\]", "", w.split(": ", 1)[1])[:40]
+                c0 = cls(w, ans)
+
+                def still(l2):
+                    a2 = run_cases(exe, dn, [l2], sc, per_run=20)[0]
+                    w2 = judge(a.prop, l2, a2)
+                    return bool(w2) and cls(w2, a2) == c0
+                line = shrink(line, still)
+                ans = run_cases(exe, dn, [line], sc, per_run=20)[0]
+                w = judge(a.prop, line, ans)
             print("== %s\ninput:          %s\nimplementation: %s\noracle:         %s" % (dn, line, ans, w if w else "no violation found"))
             rc = rc or (1 if w else 0)
         sys.exit(rc)
